@@ -89,6 +89,26 @@ Proof.
   intros Hwf q rest -> Hin. apply writable_at_complete; assumption.
 Qed.
 
+(* The VALUE a logger point receives (syslog.Pref(prefix): one shared logger per prefix) does not depend on the
+   embedding arrangement: the logger points of a shape and of its flattening (field, tag value, arguments,
+   received prefix) coincide, whatever the embedded types are called ([named] / [named'] : struct types with and
+   without a name), for every point that does not itself ask for its position (`logger:",embed"` without a prefix
+   of its own - the one documented position-dependent form, modelled as the code has it: Holder.String()); such a
+   point receives exactly what the same tag yields on a field declared directly on the component
+   ([logger_direct]: the tag's prefix, or the component name), and declared directly even an `embed` point does. *)
+Theorem c11_logger_flatten : forall comp named named' tp c,
+  map (logger_obs comp named) (filter position_free (logger_points tp c)) =
+  map (logger_obs comp named') (filter position_free (logger_points tp (flatten_all c)))
+  /\ (forall pr, In pr (logger_points tp c) -> position_free pr = true ->
+        logger_pref comp named pr = logger_direct comp (pr_val pr))
+  /\ (forall pr, In pr (logger_points tp (flatten_all c)) ->
+        logger_pref comp named' pr = logger_direct comp (pr_val pr)).
+Proof.
+  intros comp named named' tp c. split; [apply logger_flatten|]. split.
+  - intros pr _. apply logger_pref_free.
+  - intros pr. apply logger_pref_direct, flatten_all_flat.
+Qed.
+
 (* ---- non-vacuity ---------------------------------------------------------------------- *)
 
 Definition t_value v := mkTag "value" v [].
@@ -178,3 +198,24 @@ Proof.
   - vm_compute. intuition discriminate.
   - vm_compute. intuition discriminate.
 Qed.
+
+(* type Comp struct { L Logger `logger:""`; Mid }   type Mid struct { Base }
+   type Base struct { L2 Logger `logger:""`; N Logger `logger:"my"`; P Logger `logger:",embed"` } *)
+Definition p_logger := mkTP "logger" HNone true.
+Definition ex_log_base : comp :=
+  [Leaf "L2" true [mkTag "logger" "" []] KLogger None;
+   Leaf "N" true [mkTag "logger" "my" []] KLogger None;
+   Leaf "P" true [mkTag "logger" "" [("Embed", [""])]] KLogger None;
+   Leaf "I" true [mkTag "logger" "" []] KInt None].
+Definition ex_log_comp : comp :=
+  [Leaf "L" true [mkTag "logger" "" []] KLogger None;
+   Sub "Mid" true true true [] None [Sub "Base" true true true [] None ex_log_base]].
+
+Example c11_logger_example :
+  map (fun pr => (pr_field pr, logger_pref "pkg/Comp" true pr)) (logger_points p_logger ex_log_comp) =
+    [("L", "pkg/Comp"); ("L2", "pkg/Comp"); ("N", "my"); ("P", "pkg/Comp.Embed(Mid).Embed(Base)")] /\
+  map (fun pr => (pr_field pr, logger_pref "pkg/Comp" false pr)) (logger_points p_logger ex_log_comp) =
+    [("L", "pkg/Comp"); ("L2", "pkg/Comp"); ("N", "my"); ("P", "pkg/Comp.Embed().Embed()")] /\
+  map (fun pr => (pr_field pr, logger_pref "pkg/Comp" true pr)) (logger_points p_logger (flatten_all ex_log_comp)) =
+    [("L", "pkg/Comp"); ("L2", "pkg/Comp"); ("N", "my"); ("P", "pkg/Comp")].
+Proof. repeat split. Qed.
